@@ -88,9 +88,14 @@ def run(ctx: core.Ctx) -> int:
             forced = False
             for si, s in enumerate(h):
                 fl = flavour_for(random.Random(f"{seed}|{si}"), sname if not forced else None, styles)
+                recursive = forced and (hi // 7) % 2 == 0       # later steps reach the file through `annotate -r .`
+                if recursive:
+                    fl = dict(fl, extra=["--recursive"])
                 if si == force_at:
                     fl, forced = {"dot": "force"}, True
                 steps.append(anncases.step_of(s["b"], rnd, [fname], fl, must=True, pick_seed=f"{seed}|{s['b']['name']}"))
+                if recursive and si != force_at:
+                    steps[-1]["cli_targets"] = ["."]
             cases.append({"tid": len(cases) + 1, "files": [{"name": fname, "kind": kind, "style_name": sname,
                                                             "eol": ["\n", "\r\n", "\r"][len(cases) % 3]}],
                           "steps": steps,
@@ -107,6 +112,19 @@ def run(ctx: core.Ctx) -> int:
                 cases.append({"tid": len(cases) + 1, "files": [{"name": "sample.py", "kind": kind, "style_name": "python", "eol": "\n"}],
                               "steps": [st_, st_],
                               "label": anncases.label(file="sample.py", body=kind, history=[h[0]["b"]["name"]] * 2, flavours=[{"template": tmpl}] * 2)})
+    # the same person first named as contributor, later as holder (and the other way round): both lines stay
+    bundles = {h[0]["b"]["name"]: h[0]["b"] for h in singles1}
+    if "B3" in bundles and "B1" in bundles:
+        for fname, sname in (("sample.py", "python"), ("sample.c", "c"), ("sample.html", "html")):
+            for order in (("B3", "B1"), ("B1", "B3")):
+                seed = f"{ctx.seed}|same|{len(cases)}"
+                sts = []
+                for bn in order:
+                    st_ = anncases.step_of(bundles[bn], rnd, [fname], {}, must=True, pick_seed=seed)
+                    st_["req"] = dict(st_["req"], holders=["Same Person"] if st_["req"]["holders"] else [], con=["Same Person"] if st_["req"]["con"] else [])
+                    sts.append(st_)
+                cases.append({"tid": len(cases) + 1, "files": [{"name": fname, "kind": "code", "style_name": sname, "eol": "\n"}], "steps": sts,
+                              "label": anncases.label(file=fname, body="code", history=list(order), flavours=[{"same-name-as-holder-and-contributor": True}] * 2)})
     # a header that names only a contributor, moved into a .license sibling: the contributor stays declared
     for fname, sname in (("sample.py", "python"), ("sample.c", "c"), ("sample.html", "html")):
         for h in singles1[:4]:
